@@ -225,6 +225,7 @@ type Exec struct {
 	nondetOcc map[string]int
 	observes  []observeRec
 
+	wrapped   map[*Value]IfaceV // errors made by the fmt.Errorf intrinsic with %w -> the wrapped error
 	nobj      int
 	steps     int
 	depth     int
